@@ -446,7 +446,10 @@ class Exchange:
                     got = read_stream(d.bytes_to(conn), True, False)
                     n = len(got["messages"])
                     while answered.get(conn.id, 0) < n and responses:
-                        body, close = responses.pop(0)
+                        item = responses.pop(0)
+                        if callable(item):  # responder: the origin's answer depends on the request it read
+                            item = item(got["messages"][answered.get(conn.id, 0)])
+                        body, close = item
                         segs = server_splitter(body) if server_splitter else [body]
                         for s in segs:
                             if s:
